@@ -3,6 +3,8 @@ package main
 // `walvc check --property Cnn --tier quick|thorough`: the registered check.
 
 import (
+	"os/exec"
+	"sync"
 	"runtime"
 	"encoding/json"
 	"flag"
@@ -241,8 +243,9 @@ func (p *Prog) CheckProperty(prop, tier string, seed int) *CheckResult {
 	timeout := 10000
 	all := false
 	if tier == "thorough" {
+		// longer limits, then every proved obligation is re-decided by a solver
+		// of the other family (crossCheck below)
 		timeout = 60000
-		all = true
 	}
 	// other jobs on the machine slow the solvers down: scale the time limits
 	// with the load so that a proof does not turn into a timeout
@@ -370,6 +373,10 @@ func (p *Prog) CheckProperty(prop, tier string, seed int) *CheckResult {
 			rn = append(rn, fmt.Sprintf("%s [%s] -> %s (%s, %d ms)", o.Name, o.Path, o.Status, o.Backend, o.Ms))
 		}
 		res.Extra["retried"] = rn
+	}
+	if tier == "thorough" {
+		conf, unconf, dis := crossCheck(obls, work)
+		res.Extra["second_solver"] = fmt.Sprintf("%d proved obligations confirmed by a solver of the other family (z3 <-> cvc5, 20 s), %d not decided by it within the limit, %d disagreements", conf, unconf, dis)
 	}
 	if len(tries) > 0 {
 		SolveAll(tries, work, timeout, false)
@@ -661,4 +668,52 @@ func loadAverage() float64 {
 	var la float64
 	fmt.Sscanf(string(b), "%f", &la)
 	return la
+}
+
+
+// crossCheck re-decides every proved obligation with a solver of the other
+// family. A `sat` answer there is a solver disagreement and fails the obligation.
+func crossCheck(obls []*Obl, workDir string) (confirmed, undecided, disagree int) {
+	os.MkdirAll(workDir, 0755)
+	var mu sync.Mutex
+	var wg sync.WaitGroup
+	sem := make(chan struct{}, 12)
+	for i, o := range obls {
+		if o.Status != "proved" || o.Query == "" || o.Kind == "deadprobe" || o.Kind == "lemma-file" {
+			continue
+		}
+		wg.Add(1)
+		sem <- struct{}{}
+		go func(i int, o *Obl) {
+			defer wg.Done()
+			defer func() { <-sem }()
+			f := filepath.Join(workDir, fmt.Sprintf("x%05d.smt2", i))
+			os.WriteFile(f, []byte(o.Query), 0644)
+			defer os.Remove(f)
+			var cmd *exec.Cmd
+			if strings.HasPrefix(o.Backend, "cvc5") {
+				cmd = exec.Command("z3-new", "-T:20", f)
+			} else {
+				cmd = exec.Command("cvc5", "--full-saturate-quant", "--tlimit=20000", f)
+			}
+			procSlots <- struct{}{}
+			out, _ := cmd.CombinedOutput()
+			<-procSlots
+			first := strings.TrimSpace(strings.SplitN(string(out), "\n", 2)[0])
+			mu.Lock()
+			defer mu.Unlock()
+			switch first {
+			case "unsat":
+				confirmed++
+			case "sat":
+				disagree++
+				o.Status = "solver-disagreement"
+				o.Model = "proved by " + o.Backend + ", refuted by the other solver family"
+			default:
+				undecided++
+			}
+		}(i, o)
+	}
+	wg.Wait()
+	return
 }
